@@ -132,6 +132,30 @@ NumLiveQers(sess) == LET S == {<<u, q>> : u \in DOMAIN sess, q \in UNION {DOMAIN
 \* configured meter cells only for QERs of live sessions: a QER owns at most two cells
 MetersOK(t, sess) == Cardinality(t.appMeters) + Cardinality(t.sessMeters) <= 2 * NumLiveQers(sess)
 
+\* C09 on UP4: the meter cell a forwarding terminations entry names is configured with peak rate MBR x 125 bytes/s of
+\* the PDR's flow QER in that direction and a peak burst of at least 10 ms at that rate; likewise the session meter
+\* cell of a sessions entry with the session QER (the QER of the PDR without a QFI).  Rates are BigNat (kbit/s).
+CellsAt(cells, i) == IF i > 0 THEN {x \in cells : x.idx = i} ELSE {}
+CellHolds(x, mbr) == ~x.neg /\ Eq(x.pir, MulSmall(mbr, 125)) /\ Leq(DivSmall(MulSmall(mbr, 125), 100), x.pbs)
+\* the meter cells on the path of a PDR's packets: the application-meter cell its terminations entry names and the
+\* session-meter cell its sessions entry names
+PathCells(t, s, p, c) ==
+  LET k == TermKey(t, s, p, c)
+      E == {e \in (IF IsUL(p) THEN t.termUL ELSE t.termDL) : <<e.ue, e.app>> = k /\ e.act = "fwd"}
+      S == IF IsUL(p) THEN {x \in t.sessUL : <<x.n3, x.teid>> = UlKey(p)} ELSE {x \in t.sessDL : x.ue = SessUe(s)} IN
+  UNION {CellsAt(t.appMeters, e.ameter) : e \in E} \cup UNION {CellsAt(t.sessMeters, x.smeter) : x \in S}
+Forwarded(t, s, p, c) ==
+  \E e \in (IF IsUL(p) THEN t.termUL ELSE t.termDL) : <<e.ue, e.app>> = TermKey(t, s, p, c) /\ e.act = "fwd"
+QersOfPdr(s, p) == {s.qers[p.qers[i]] : i \in {j \in 1..Len(p.qers) : p.qers[j] \in DOMAIN s.qers}}
+DirMbr(q, p) == IF IsUL(p) THEN q.ulMbr ELSE q.dlMbr
+\* every QER of a forwarded PDR with a non-zero MBR in the PDR's direction is enforced by a cell on the PDR's path
+\* (whichever of the two meters the agent uses for it), and no cell on the path enforces anything else
+PeakRatesOK(t, sess, c) ==
+  \A u \in SessWithDl(sess) : \A p \in {x \in PdrsOf4(sess[u]) : (IsUL(x) \/ IsDL(x)) /\ Forwarded(t, sess[u], x, c)} :
+     LET s == sess[u]  P == PathCells(t, s, p, c) IN
+     /\ \A q \in QersOfPdr(s, p) : ~IsZero(DirMbr(q, p)) => \E x \in P : CellHolds(x, DirMbr(q, p))
+     /\ \A x \in P : \E q \in QersOfPdr(s, p) : CellHolds(x, DirMbr(q, p))
+
 TablesAreImage(t, sess, c) ==
   /\ IfacesOK(t, c) /\ AppsOK(t, sess, c) /\ PeersOK(t, sess, c) /\ SessULOK(t, sess) /\ SessDLOK(t, sess, c)
   /\ TermsOK(t, sess, c) /\ MetersOK(t, sess)
